@@ -94,6 +94,47 @@ int main() {
            << (long long)b.max.x << " " << (long long)b.max.y << " " << (long long)b.max.z;
     }
     printf("%s\n", cert.str().c_str());
+    // ---- UpdateBoxes and axis-aligned Transform: the same exactness must hold for the new boxes
+    auto dumpAfter = [&](const char* suffix) {
+      std::ostringstream c2;
+      c2 << "CERT " << id << suffix << " " << n;
+      for (auto& c : col.internalChildren_) c2 << " " << c.first << " " << c.second;
+      for (int k = 0; k < 2 * n - 1; ++k) {
+        const Box& b = col.nodeBBox_[k];
+        c2 << " " << (long long)b.min.x << " " << (long long)b.min.y << " " << (long long)b.min.z << " "
+           << (long long)b.max.x << " " << (long long)b.max.y << " " << (long long)b.max.z;
+      }
+      printf("%s\n", c2.str().c_str());
+      std::vector<std::pair<int, int>> pr;
+      auto rc = [&](int q, int l) { pr.push_back({q, l}); };
+      auto rr = MakeSimpleRecorder(rc);
+      if (kind == 0) {
+        if (self) col.Collisions<true, Box>(rr, qb.cview(), false);
+        else col.Collisions<false, Box>(rr, qb.cview(), false);
+      } else {
+        if (self) col.Collisions<true, vec3>(rr, qp.cview(), false);
+        else col.Collisions<false, vec3>(rr, qp.cview(), false);
+      }
+      std::ostringstream o2;
+      o2 << "A " << id << suffix;
+      for (auto& p : pr) o2 << " " << p.first << " " << p.second;
+      printf("%s\n", o2.str().c_str());
+    };
+    if (!self) {
+      // new leaf boxes: a deterministic function of the old ones (checks/C14.py computes the same)
+      Vec<Box> nb(n);
+      for (int i = 0; i < n; ++i) {
+        vec3 sh((i * 7) % 5 - 2, (i * 3) % 4 - 1, (i % 3) - 1);
+        nb[i].min = boxes[i].min + sh;
+        nb[i].max = boxes[i].max + sh + vec3(i % 2, 0, (i / 2) % 2);
+      }
+      col.UpdateBoxes(nb.cview());
+      dumpAfter(".u");
+      // axis-aligned transform: x' = 2y + 1, y' = -z + 2, z' = 3x + 3
+      mat3x4 m({0.0, 0.0, 3.0}, {2.0, 0.0, 0.0}, {0.0, -1.0, 0.0}, {1.0, 2.0, 3.0});
+      col.Transform(m);
+      dumpAfter(".t");
+    }
     // parent array consistency (nodeParent_ is only used by BuildInternalBoxes)
     bool parentsOk = true;
     for (int k = 0; k + 1 < n; ++k) {
